@@ -371,6 +371,7 @@ func checkHier(c hierCase, o *kit.Obs) error {
 		size = math.Max(size, p.Max.Sub(p.Min).MaxAbs())
 	}
 	decided := 0
+	var goodPts []kit.V3 // probes away from every surface
 	for _, q := range pts {
 		encl := make([]bool, len(cs))
 		good := true
@@ -394,6 +395,7 @@ func checkHier(c hierCase, o *kit.Obs) error {
 			continue
 		}
 		decided++
+		goodPts = append(goodPts, q)
 		anyIn := false
 		for _, h := range hs {
 			n := 0
@@ -443,6 +445,16 @@ func checkHier(c hierCase, o *kit.Obs) error {
 		}
 		if err := cmp(h, g); err != nil {
 			return err
+		}
+		// ... and the moved hierarchy is the solid of its own (moved) meshes: membership and bounds move along
+		for _, q := range goodPts {
+			if got, want := g.Contains(m3.C3(mv(q))), h.Contains(m3.C3(q)); got != want {
+				return fmt.Errorf("MapCoords(translation by %v): the moved hierarchy says %v at the moved probe %v, the original says %v at %v", c.Move, got, mv(q), want, q)
+			}
+		}
+		tol := 1e-9 * (1 + c.Move.MaxAbs() + m3.V3(h.Max()).MaxAbs() + m3.V3(h.Min()).MaxAbs())
+		if m3.V3(g.Min()).Dist(mv(m3.V3(h.Min()))) > tol || m3.V3(g.Max()).Dist(mv(m3.V3(h.Max()))) > tol {
+			return fmt.Errorf("MapCoords(translation by %v): bounds %v..%v, the original's bounds %v..%v moved along are expected", c.Move, g.Min(), g.Max(), h.Min(), h.Max())
 		}
 	}
 	_ = decided
@@ -774,6 +786,7 @@ func checkHier2(c hier2Case, o *kit.Obs) error {
 		step := kit.V2{-d[1], d[0]}.Unit().Scale(0.02 * ext)
 		pts = append(pts, g[0].Mid(g[1]).Add(step), g[0].Mid(g[1]).Sub(step))
 	}
+	var goodPts2 []kit.V2
 	for _, q := range pts {
 		encl := make([]bool, len(cs))
 		good := true
@@ -796,6 +809,7 @@ func checkHier2(c hier2Case, o *kit.Obs) error {
 			o.Skip("probe near an outline")
 			continue
 		}
+		goodPts2 = append(goodPts2, q)
 		anyIn := false
 		for _, h := range hs {
 			n := 0
@@ -840,6 +854,15 @@ func checkHier2(c hier2Case, o *kit.Obs) error {
 		g := hs[0].MapCoords(func(p model2d.Coord) model2d.Coord { return m3.C2(mv(m3.V2(p))) })
 		if err := cmp(hs[0], g); err != nil {
 			return err
+		}
+		for _, q := range goodPts2 {
+			if got, want := g.Contains(m3.C2(mv(q))), hs[0].Contains(m3.C2(q)); got != want {
+				return fmt.Errorf("2D MapCoords(translation by %v): the moved hierarchy says %v at the moved probe %v, the original says %v at %v", c.Move, got, mv(q), want, q)
+			}
+		}
+		tol := 1e-9 * (1 + c.Move.Norm() + m3.V2(hs[0].Max()).Norm() + m3.V2(hs[0].Min()).Norm())
+		if m3.V2(g.Min()).Dist(mv(m3.V2(hs[0].Min()))) > tol || m3.V2(g.Max()).Dist(mv(m3.V2(hs[0].Max()))) > tol {
+			return fmt.Errorf("2D MapCoords(translation by %v): bounds %v..%v, the original's bounds %v..%v moved along are expected", c.Move, g.Min(), g.Max(), hs[0].Min(), hs[0].Max())
 		}
 	}
 	return nil
